@@ -402,7 +402,10 @@ def extra(tier, seed, ctx, pool):
         r = CaseResult(case_id=f'ev{t}')
         r.observations = 1
         r.tags = sorted(tags)
-        if v != 'ok':
+        if v == 'skipped_out_of_arithmetic_range':      # not judged (32-bit arithmetic of the trace specification): neither pass nor violation
+            r.skipped = v
+            r.nontrivial = False
+        elif v != 'ok':
             sub = rd.get('fn') or rd.get('mode') or 'ScientificFloat'
             r.mismatches.append({'what': f'{sub} {json.dumps(rd)}', 'got': repr(text), 'want': 'a text Display!RenderVerdict accepts', 'signature': f'render:{v}', 'detail': ''})
         yield (json.dumps({'render': rd, 'event': None}), r)
